@@ -39,7 +39,7 @@ ACT_ROW = "\t".join(['"Fe"', "101", "26", "Fe", "56", "Fe-56", "91.5", "Fe-57m",
 
 
 def probes():
-    from rules.C07 import PROBE as NSF, PROBE_I as NSFI
+    from rules.C07 import PROBE_BASE as NSF, PROBE_I as NSFI
     from rules.C20 import CORDERO, LINES, CFML
     return {
         "mass.isotope_mass": ISO, "mass.element_mass": ELM, "mass.isotope_abundance": ABU,
